@@ -62,7 +62,8 @@ QuotKinds == {"Quotient", "FloorDiv", "Remainder", "QuotientBase"}
 ShiftKinds == {"LeftShift", "RightShift"}
 ChildOnly == {"BitwiseNot", "LogicalNot"}
 UserClasses == {"URoot", "UChild", "ULeg", "ULegChild", "UPlain", "UVar", "UTagVar", "UInit",
-                "UPlain2", "ULegGrand", "ULegGrandD", "ULegChildPlain", "UMVTag"}
+                "UPlain2", "ULegGrand", "ULegGrandD", "ULegChildPlain", "UMVTag",
+                "UKw", "UKwCse", "UInitF"}
 
 FieldsOf(cls) ==
     CASE cls \in ChildrenOnly -> << "children" >>
@@ -86,10 +87,14 @@ FieldsOf(cls) ==
       [] cls \in {"UChild", "ULegChild", "ULegGrand", "ULegChildPlain"} -> << "u", "v", "w" >>
       [] cls = "ULegGrandD"   -> << "u", "v", "w", "x" >>
       [] cls \in {"UTagVar", "UMVTag"} -> << "name", "tag" >>
+      \* round 4: fields that are not positional constructor parameters (see NonPositional)
+      [] cls = "UKw"          -> << "u", "t", "v" >>
+      [] cls = "UKwCse"       -> << "child", "prefix", "scope", "tag" >>
+      [] cls = "UInitF"       -> << "u", "lab", "v" >>
 
 TmplOf(cls) ==
-    CASE cls \in {"URoot", "UInit"} -> "deco-root"
-      [] cls = "UChild"    -> "deco-child"
+    CASE cls \in {"URoot", "UInit", "UKw", "UInitF"} -> "deco-root"
+      [] cls \in {"UChild", "UKwCse"} -> "deco-child"
       [] cls = "UTagVar"   -> "deco-child"
       [] cls = "ULeg"      -> "legacy"
       [] cls \in {"ULegChild", "ULegGrand", "ULegGrandD", "ULegChildPlain", "UMVTag"} -> "legacy-child"
@@ -117,6 +122,7 @@ ParentOf(cls) ==
       [] cls = "ULegChildPlain"  -> "ULegChild"
       [] cls \in {"UVar", "UTagVar", "MultiVectorVariable"} -> "Variable"
       [] cls = "UMVTag"          -> "MultiVectorVariable"
+      [] cls = "UKwCse"          -> "CommonSubexpression"
       [] OTHER                   -> ""
 Undecorated(cls) == TmplOf(cls) \in {"plain-child", "legacy-child"}
 \* cls, its base, ... as long as they are undecorated (nearest first)
@@ -133,6 +139,29 @@ OwnCount(cls) ==
       [] OTHER             -> Len(FieldsOf(cls))
 
 IsDataclassInstance(cls) == cls # "ULeg"
+
+(***************************************************************************)
+(* Round 4: how a dataclass field gets its value.  Not every field of a    *)
+(* decorated class is a positional parameter of its constructor:           *)
+(*   UKw     (Expression)  u, t (keyword-only, default 0, declared BETWEEN *)
+(*           the positional ones), v (positional, default 0)               *)
+(*   UKwCse  decorated child of the built-in CommonSubexpression (whose    *)
+(*           prefix / scope have defaults) adding tag: keyword-only, no    *)
+(*           default, handed back to mappers by get_extra_properties       *)
+(*   UInitF  (Expression)  u, lab (field(init=False): not a constructor    *)
+(*           parameter at all; __post_init__ takes it from the ambient     *)
+(*           context the object is built in), v (positional, default 0)    *)
+(* The statement does not care: a field is a field.  NonPositional = the   *)
+(* indices of the fields the constructor does not take by position,        *)
+(* NoInit = of those it does not take at all.                              *)
+(***************************************************************************)
+NonPositional(cls) ==
+    CASE cls \in {"UKw", "UInitF"} -> {2}
+      [] cls = "UKwCse"            -> {4}
+      [] OTHER                     -> {}
+NoInit(cls) == IF cls = "UInitF" THEN {2} ELSE {}
+\* classes with CommonSubexpression's __post_init__ (scope None -> evaluation scope)
+CseLike == {"CommonSubexpression", "UKwCse"}
 FieldIndex(cls, fname) == CHOOSE i \in 1..Len(FieldsOf(cls)) : FieldsOf(cls)[i] = fname
 
 (***************************************************************************)
@@ -290,7 +319,7 @@ Norm(v) ==
                 ELSE IF v.f[2].s \in DOMAIN OpNames
                      THEN [v EXCEPT !.f[2] = Str(OpNames[v.f[2].s])]
                      ELSE [t |-> "Err", s |-> "RuntimeError"]
-           [] v.cls = "CommonSubexpression" /\ v.f[3].t = "None" ->
+           [] v.cls \in CseLike /\ v.f[3].t = "None" ->
                 [v EXCEPT !.f[3] = Str("pymbolic_eval")]
            [] OTHER -> v
 
